@@ -605,9 +605,9 @@ func main() {
 			}
 		}
 	}
-	dbound := 1
+	dbound, dmul := 1, int64(10)
 	if run.Thorough() {
-		dbound = 2
+		dbound, dmul = 2, 4
 	}
 	nFirst := len(ids)
 	ids = append(ids, deep...)
@@ -621,7 +621,7 @@ func main() {
 			mx = maxExec / 75
 		}
 		if i >= nFirst {
-			r := vx.ExploreItem(sc, dbound, vx.Config{MaxExec: mx * 4, Delay: true})
+			r := vx.ExploreItem(sc, dbound, vx.Config{MaxExec: mx * dmul, Delay: true})
 			r.Name = "delay:" + r.Name
 			return r
 		}
